@@ -7,6 +7,9 @@ CHECKS = {
  "C01": dict(level="proof", technique="Lean 4 theorems (scan_eq characterisation, induction over the coordinate loop) + exact differential correspondence through the order embedding phi",
    text="Lean 4 proves, for vectors of every length over any linear order and every marker pair, that the model of ParetoDominance.compare returns the textbook strict-partial-order verdict (feasibility first, then Pareto dominance), is irreflexive, antisymmetric and transitive, and that the epsilon comparator agrees on different vectors and names the second of two identical vectors. The model is tied to /repo on every run by an exact differential test (phi-embedded doubles, exact rationals).",
    note="Trusted: Lean kernel + propext/Classical.choice/Quot.sound; the hand-written model and the correspondence (a test); NaN/inf excluded; eps pairs closer than rounding error excluded as in the statement.", ref="5/C01"),
+ "C07": dict(level="proof", technique="Lean 4 projection theorem over all schedules of an action-level model + forced-schedule differential test on the real joblib threads",
+   text="PARTIAL. Lean 4 proves for every batch size, worker count and schedule that, if each action of Job.evaluate touches only its own design's record and store row (the footprint built into the model), every complete interleaving yields exactly the serial records, one stored row with the final data per newly evaluated design and exactly one objective call per not-yet-evaluated design (proj_run, schedule_independent, parallel_fields, parallel_eq_serial). That the real threads have this footprint is tested, not proved: schedules are forced on the real joblib threads at objective-call and store-sync gates (with a real SQLite file, including a writer that holds the lock while others retry), the schedule taken is replayed through the model and records, rows and call counts are compared.",
+   note="Trusted/assumed: interleavings inside one modelled action (bytecode level under the GIL), SQLite's own locking and joblib's threading backend are exercised, not proved; np.round supplied as a table; Lean kernel + standard axioms.", ref="5/C07"),
 }
 TODO = {}
 def main():
